@@ -212,8 +212,15 @@ def r4(ctx):
                 'CharString::chars', Call('CharString::new', isitem('Regular'), ('field', ('field', ('arg', 1, ANY), 'config'), 'use_graphemes')))):
             kind = 'regular'
             toks = {}
-            nxt = lambda u: match(u, Call('::next', ANY))
-            for a in value_alts(ctx.facts, b, s_.elem, expanded=True):
+            al_ = value_alts(ctx.facts, b, s_.elem, expanded=True)
+            # the code point iterator of the Character: the receiver of the next() whose payload becomes the token
+            recv = None
+            for a in al_:
+                cv = core(a.value)
+                if cv[0] == 'agg' and cv[2].endswith('VocabToken::Token') and cv[3] and core(cv[3][0])[0] == 'call' and core(cv[3][0])[1].endswith('::next'):
+                    recv = nosite(core(core(cv[3][0])[2][0]))
+            nxt = lambda u: match(u, Call('::next', ANY)) and (recv is None or nosite(core(u[2][0])) == recv)
+            for a in al_:
                 cv = core(a.value)
                 more = {'Some': True, 'None': False}.get(a.state_of(nxt))
                 if cv[0] == 'agg' and cv[2].endswith('VocabToken::Special'):
